@@ -190,6 +190,11 @@ CloudPutV(s, log, k, v, x, K) ==
        THEN (IF le.x # x THEN [c |-> "vm", log |-> log] ELSE [c |-> "ok", log |-> log])
   ELSE [c |-> "ok", log |-> [log EXCEPT ![k] = Ent(v, x)]]
 
+\* put (cloud.rs:93): the version is the LOCAL version + 1 (with cloudChecksStaged: a write
+\* already staged for the key keeps its version)
+CloudPutVersion(s, k, K) ==
+  IF K.cloudChecksStaged /\ Present(s.log[k]) THEN s.log[k].v ELSE s.loc[k].v + 1
+
 \* put_batch (cloud.rs:121): put_with_version one by one, stops at the first refusal
 RECURSIVE CloudSeq(_, _, _, _, _)
 CloudSeq(s, log, es, i, K) ==
@@ -207,9 +212,9 @@ CloudStep(s, r, K) ==
                                                Ent(s.loc[WriterKey].v + 1, SignerVal)]])
   ELSE IF r.op \in {"Reopen"} THEN Out(ROk, s)
   ELSE IF s.ph # "open" THEN Dead(s)                                      \* "not in transaction"
-  ELSE CASE r.op = "Put"    -> LET o == CloudPutV(s, s.log, r.k, s.loc[r.k].v + 1, r.x, K) IN
+  ELSE CASE r.op = "Put"    -> LET o == CloudPutV(s, s.log, r.k, CloudPutVersion(s, r.k, K), r.x, K) IN
                                Out(R(o.c, <<>>), [s EXCEPT !.log = o.log])
-         [] r.op = "Delete" -> LET o == CloudPutV(s, s.log, r.k, s.loc[r.k].v + 1, "", K) IN
+         [] r.op = "Delete" -> LET o == CloudPutV(s, s.log, r.k, CloudPutVersion(s, r.k, K), "", K) IN
                                Out(R(o.c, <<>>), [s EXCEPT !.log = o.log])
          [] r.op = "PutV"   -> LET o == CloudPutV(s, s.log, r.k, r.v, r.x, K) IN
                                Out(R(o.c, <<>>), [s EXCEPT !.log = o.log])
@@ -224,8 +229,8 @@ CloudStep(s, r, K) ==
                    ELSE Dead(s)                                           \* assert_eq!(.., LAST_WRITER_KEY)
               ELSE Out(R("ok", Dump(s.log)), s)
          [] r.op = "Commit" ->
-              LET es == [i \in 1..Len(Dump(s.log)) |->
-                            [k |-> Dump(s.log)[i][1], v |-> Dump(s.log)[i][2], x |-> Dump(s.log)[i][3]]]
+              LET d  == Dump(s.log)
+                  es == [i \in 1..Len(d) |-> [k |-> d[i][1], v |-> d[i][2], x |-> d[i][3]]]
                   o  == TabBatch(s.loc, es, K)
               IN Out(R(o.c, <<>>), [loc |-> o.t, ph |-> "closed", log |-> EmptyTab])
          [] OTHER -> Out(ROk, s)
@@ -317,13 +322,18 @@ RepTab(m) == [k \in AllKeys |-> IF \E i \in DOMAIN m : m[i][1] = k
                                 ELSE Absent]
 
 CloudViol(g, r, resp, pre, post) ==
-  LET ok == resp.c = "ok" IN
+  LET ok   == resp.c = "ok"
+      rt   == RepTab(g.m)          \* the mutations reported by the last prepare
+      rnow == RepTab(resp.e)       \* (for prepare) the mutations reported now
+      rdPre  == Readable(pre)
+      rdPost == Readable(post)
+  IN
   \* never lowers a version: in the local store, and in what the transaction reads (user keys)
         Clause(\E k \in AllKeys : post.loc[k].v < pre.loc[k].v, "local-version-decreased")
   \cup  Clause(\E k \in AllKeys : post.loc[k].v = pre.loc[k].v /\ post.loc[k] # pre.loc[k],
                "local-content-changed-at-same-version")
   \cup  Clause(pre.ph # "dead" /\ post.ph # "dead"
-               /\ \E k \in UserKeys : Readable(post)[k].v < Readable(pre)[k].v, "readable-version-lowered")
+               /\ \E k \in UserKeys : rdPost[k].v < rdPre[k].v, "readable-version-lowered")
   \* a transaction reads its own writes by key
   \cup  Clause(IsWrite(r) /\ ok /\ post.ph = "open" /\ ~OwnWriteReadable(r, post.view), "own-write-not-readable")
   \cup  Clause(IsRead(r) /\ r.op # "GetPrefix" /\ ok /\ pre.ph = "open"
@@ -332,21 +342,20 @@ CloudViol(g, r, resp, pre, post) ==
   \cup  Clause(r.op # "Commit" /\ post.loc # pre.loc, "local-changed-without-commit")
   \* ... and exactly by the mutations reported (when the report is still current)
   \cup  Clause(r.op = "Commit" /\ ok /\ g.valid
-               /\ \E k \in AllKeys : post.loc[k] # (IF Present(RepTab(g.m)[k]) THEN RepTab(g.m)[k] ELSE pre.loc[k]),
+               /\ \E k \in AllKeys : post.loc[k] # (IF Present(rt[k]) THEN rt[k] ELSE pre.loc[k]),
                "commit-differs-from-reported-mutations")
   \cup  Clause(r.op = "Commit" /\ ok /\ ~g.valid /\ pre.ph = "open"
                /\ \E k \in AllKeys : post.loc[k] # pre.view[k], "commit-differs-from-transaction-writes")
   \cup  Clause(r.op = "Commit" /\ ~ok /\ post.loc # pre.loc, "refused-commit-changed-local")
   \* the report is the transaction's writes
   \cup  Clause(r.op = "Prepare" /\ ok /\ post.ph = "open"
-               /\ \E k \in AllKeys : post.view[k] # (IF Present(RepTab(resp.e)[k]) THEN RepTab(resp.e)[k] ELSE post.loc[k]),
+               /\ \E k \in AllKeys : post.view[k] # (IF Present(rnow[k]) THEN rnow[k] ELSE post.loc[k]),
                "report-differs-from-transaction-writes")
 
 CloudGhost(g, r, resp) ==
   IF r.op = "Prepare" /\ resp.c = "ok" THEN [valid |-> TRUE, m |-> resp.e]
   ELSE IF r.op \in {"Enter", "Commit"} \/ resp.c = "panic" THEN CloudGhostInit
-  ELSE IF IsWrite(r) /\ resp.c = "ok" THEN [g EXCEPT !.valid = FALSE]
-  ELSE IF IsWrite(r) THEN [g EXCEPT !.valid = FALSE]      \* a refused batch may have staged a prefix
+  ELSE IF IsWrite(r) THEN [g EXCEPT !.valid = FALSE]      \* (a refused batch may have staged a prefix)
   ELSE g
 
 (***************************************************************************)
